@@ -121,6 +121,14 @@ def httpInits (j : Json) : Except String (List String) :=
     let body ← payloadOfJson b
     pure (initClass (initOkOf b) (some (jsonBody 200 body))))
 
+/-- re-entrant handlers (`handlerKind = "reentrant"`): every delivered notification's handler makes one call on the same
+    client, which is answered whenever the reader is alive (`C07_later_call_*`): `n` answered, none failed -/
+def withRe (j : Json) (n : Nat) (alive : Bool) (out : Json) : Json :=
+  if (getStr j "handlerKind").toOption == some "reentrant" then
+    out.setObjVal! "re" (Json.mkObj [("ok", Json.num (JsonNumber.fromNat (if alive then n else 0))),
+      ("failed", Json.num (JsonNumber.fromNat (if alive then 0 else n)))])
+  else out
+
 def nextJson (ok : Bool) : Json :=
   if ok then Json.mkObj [("ok", Json.str "next")] else Json.mkObj [("failed", Json.str "header")]
 
@@ -138,8 +146,8 @@ def handle (op : String) (j : Json) : Except String Json := do
       | "eof" => pure End.eof | "stall" => pure End.stall | s => throw s!"end {s}"
     let req ← getNat j "req"
     let (st, ids) := postIdRun req H ({}, {}) ls
-    pure (withInits j (← httpInits j) [("call", callJson (some (postFinish st e))), ("notes", notesJson st.notes),
-      ("next", nextJson (laterCallOk Mcp.Gen.rdIdChecked ids))])
+    pure (withRe j st.notes.length true (withInits j (← httpInits j) [("call", callJson (some (postFinish st e))), ("notes", notesJson st.notes),
+      ("next", nextJson (laterCallOk Mcp.Gen.rdIdChecked ids))]))
   | "get" =>
     let H ← textsOf j "handlers"
     let ls ← linesOf j "lines"
@@ -148,8 +156,8 @@ def handle (op : String) (j : Json) : Except String Json := do
       | .ok l => do pure [← lineOfJson l]
       | .error _ => pure []
     let (st', ids) := getIdRun F H p (sid ++ getEvent (wfNote t!"verif/n" [(t!"k", .int 999999)]) 64)
-    pure (withInits j (← httpInits j) [("notes", notesJson st'.notes), ("answers", answersJson st'.answers), ("halt", haltJson st'.halt),
-      ("next", nextJson (laterCallOk Mcp.Gen.rdIdChecked ids))])
+    pure (withRe j st'.notes.length true (withInits j (← httpInits j) [("notes", notesJson st'.notes), ("answers", answersJson st'.answers), ("halt", haltJson st'.halt),
+      ("next", nextJson (laterCallOk Mcp.Gen.rdIdChecked ids))]))
   | "legacy" =>
     let pre ← linesOf j "pre"
     let ids ← natsOf j "ids"
@@ -190,10 +198,10 @@ def handle (op : String) (j : Json) : Except String Json := do
       pure (st', cls ++ [initClass (initOkOf b) (st'.tbl.got (i + 1))], i + 1)) (({ tbl := Table.init [] } : StdioSt), [], 0)
     let st := stdioRun F H { st0 with tbl := Table.init ids } fs
     let st' := stdioRun F H { st with tbl := Table.init [next] } [.value (wfResult next (okResult "next"))]
-    pure (withInits j inits [("calls", Json.arr (ids.map (fun k => callJson (st.tbl.got k))).toArray),
+    pure (withRe j st'.notes.length st'.halt.isNone (withInits j inits [("calls", Json.arr (ids.map (fun k => callJson (st.tbl.got k))).toArray),
       ("notes", notesJson st'.notes), ("answers", answersJson st'.answers), ("halt", haltJson st'.halt),
       ("spin", Json.bool st'.spinning), ("next", callJson (st'.tbl.got next)),
-      ("spinAfterClose", Json.bool (stdioClose st').spinning)])
+      ("spinAfterClose", Json.bool (stdioClose st').spinning)]))
   | "decode" =>
     -- well-formed answers to typed calls: the transport hands the result to the decoder (which returns a value or an error)
     let docs := (arrOf j "docs").toList
